@@ -859,3 +859,23 @@ def c19(prop, tier, seed):
     return {"level": "model_checking", "coverage": cov, "mismatches": mine, "replay_with": "",
             "assumptions": ["the output format of the tools is parsed with regular expressions written against the current format",
                             "`monitor` (never terminates) and `resolve` are not exercised"]}
+
+
+# ---------------------------------------------------------------------------------------
+# C09: round trips (exploration level)
+
+@check("C09")
+def c09(prop, tier, seed):
+    runs = [("RoundTrip", "RoundTrip_quick.cfg", {})] if tier == "quick" else \
+           [("RoundTrip", "RoundTrip_thorough.cfg", {}), ("RoundTrip", "RoundTrip_pairs.cfg", {})]
+    out = generic_replay(prop, tier, seed, runs, "roundtrip", "exploration",
+                         "a rich Spec (every optional field present) with one string slot (16 slots: env values, hook path/args/env, mount "
+                         "paths/options/type, node path/hostPath, RDT strings, annotation values, permissions) set to each of 80 pool strings "
+                         "(YAML-sensitive spellings yes/~/0123/1_000/dates/.inf, leading/trailing blanks, tabs, newlines, CR, quotes, '#', ': ', flow and "
+                         "block indicators, C0/C1 controls, DEL, NEL, NBSP, LS/PS, BOM, U+FFFD, non-BMP, long line, empty; thorough: + 120 seeded random "
+                         "UTF-8 strings and pairs of slots) or one integer field (7) set to each extreme (8), written with WriteSpec as .json, .yaml and "
+                         "extension-less, read back with ReadSpec (semantic equality: nil = empty, pointers by pointee) and loaded through a cache "
+                         "(devices equal). non-trivial = accepted for writing",
+                         ["TLA+ contributes the write/read state machine and the enumeration; it says nothing about YAML scalar resolution",
+                          "the string dimension is a pool plus seeded random UTF-8, not the string space; invalid UTF-8 is not generated"])
+    return out
